@@ -147,6 +147,18 @@ fn main() {
                         }
                     }
                 }
+                "rows" => {
+                    // positions assembled from regular rank / file patterns (positions.rs); root and a short game
+                    let c = rows_position(&mut rng);
+                    if !legal_position(&c) || !c.contains(&1) || !c.contains(&7) {
+                        continue;
+                    }
+                    let gold = rng.chance(0.5);
+                    let mn = start_move_number(&mut rng);
+                    if g.reset_parsed(&c, gold, mn, "rows") {
+                        play(&mut g, &mut rng, [Policy::Random, Policy::Contact][round % 2], 6, 0.05);
+                    }
+                }
                 "wide" => {
                     // extremal positions (positions.rs): as many actions / own steps / pushes in one direction /
                     // pushers as local search finds; the root and a short random continuation are observed
